@@ -4,6 +4,7 @@
    A "behaviour" is the choice of the arguments, one per step, so that TLC's workers
    share the enumeration (initial states are enumerated by one thread only):
        mode "pair"    a, b \in U06                     order / relation laws
+       mode "mimic"   a, b \in UMimic                  the same laws where labels contain <len><label> of other names
        mode "triple"  a, b, c \in V06                  transitivity
        mode "neigh"   <<a, b>> \in NeighbourCases, p   successor / predecessor at 63 / 253..255
        mode "cons"    a \in ConstructInputs, b too     Construct / Concat / Split / Parent at the limits
@@ -23,11 +24,13 @@ ZoneNames == {n \in {ZOrigin} \cup {<<x>> \o ZOrigin : x \in UpTo(ZAlpha, MaxLab
                         \cup {<<x, y>> \o ZOrigin : x \in UpTo(ZAlpha, MaxLabel), y \in UpTo(ZAlpha, MaxLabel)} : Valid(n)}
 
 FirstArgs(m) == CASE m = "pair" -> UPair
+                  [] m = "mimic" -> UMimic
                   [] m = "triple" -> V06
                   [] m = "neigh" -> {cs[1] : cs \in NeighbourCases}
                   [] m = "cons" -> ConstructInputs
                   [] m = "zone" -> ZoneNames
 SecondArgs(m, x) == CASE m = "pair" -> UPair
+                      [] m = "mimic" -> UMimic
                       [] m = "triple" -> V06
                       [] m = "neigh" -> {cs[2] : cs \in {d \in NeighbourCases : d[1] = x}}
                       [] m = "cons" -> ConstructInputs
@@ -40,7 +43,7 @@ Next == \/ /\ stage = 1 /\ b' \in SecondArgs(mode, a) /\ p' \in (IF mode \in {"n
         \/ /\ stage = 2 /\ mode = "triple" /\ c' \in V06 /\ stage' = 3 /\ UNCHANGED <<mode, a, b, p>>
 Spec == Init /\ [][Next]_vars
 
-Pair == mode = "pair" /\ stage = 2
+Pair == mode \in {"pair", "mimic"} /\ stage = 2
 Triple == mode = "triple" /\ stage = 3
 Neigh == mode = "neigh" /\ stage = 2
 Cons == mode = "cons" /\ stage = 2
@@ -90,6 +93,15 @@ DeepestIsSuper ==
                 r == Deepest(keys, a)
             IN  IF IsOk(r) THEN IsSub(a, r[2]) /\ \A k \in keys : IsSub(a, k) => Len(k) <= Len(r[2])
                 ELSE \A k \in keys : ~IsSub(a, k)
+
+(* a subdomain's folded wire form ends with the ancestor's, but NOT conversely: label boundaries
+   matter (the mimic universe contains the counterexamples; WireMimicWitness must be violated there) *)
+RECURSIVE WireFrom(_, _)
+WireFrom(n, i) == IF i > Len(n) THEN <<>> ELSE <<Len(n[i])>> \o LowerLabel(n[i]) \o WireFrom(n, i + 1)
+Wire(n) == WireFrom(n, 1)
+EndsWith(u, v) == Len(v) <= Len(u) /\ SubSeq(u, Len(u) - Len(v) + 1, Len(u)) = v
+SubdomainIsWireSuffix == Pair /\ IsSub(a, b) => EndsWith(Wire(a), Wire(b))
+WireMimicWitness == ~(mode = "mimic" /\ stage = 2 /\ IsAbs(a) = IsAbs(b) /\ Len(b) <= Len(a) /\ EndsWith(Wire(a), Wire(b)) /\ ~IsSub(a, b))
 
 (* transitivity on triples *)
 Transitive == Triple => /\ (Cmp(a, b) <= 0 /\ Cmp(b, c) <= 0 => Cmp(a, c) <= 0)
